@@ -559,10 +559,11 @@ fn shaped_block() -> impl Strategy<Value = Vec<(String, String)>> {
 
 fn frame_fields() -> impl Strategy<Value = Vec<(String, String)>> {
     prop_oneof![
-        3 => prop::collection::vec((field_name(), field_value()), 0..20usize),
-        1 => prop::collection::vec((field_name(), field_value()), 20..60usize),
-        5 => prop::collection::vec(shaped_block(), 1..4usize).prop_map(|b| b.concat()),
-        1 => (prop::collection::vec((field_name(), field_value()), 0..6usize), odd_field_name(), field_value(), any::<u16>()).prop_map(|(mut v, k, val, at)| {
+        18 => prop::collection::vec((field_name(), field_value()), 0..20usize),
+        6 => prop::collection::vec((field_name(), field_value()), 20..60usize),
+        1 => prop::collection::vec(shaped_block(), 30..200usize).prop_map(|b| b.concat()),
+        30 => prop::collection::vec(shaped_block(), 1..4usize).prop_map(|b| b.concat()),
+        6 => (prop::collection::vec((field_name(), field_value()), 0..6usize), odd_field_name(), field_value(), any::<u16>()).prop_map(|(mut v, k, val, at)| {
             let i = pick_idx(at, v.len() + 1);
             v.insert(i, (k, val));
             // make the odd name reachable for the song and list decoders
